@@ -25,6 +25,19 @@ def fn(crate, name, file_end):
     return bs[0]
 
 
+def arg_by_type(body, call, needle, default):
+    """the argument of a call whose (reference-stripped) type mentions `needle` (the callee may have gained / lost a
+    receiver or context parameter: positions shift, types do not); falls back to position `default`"""
+    hits = []
+    for a in call.args:
+        pl = mir.op_place(a)
+        if pl is not None and needle in body.local_ty(pl["l"]).lstrip("&").replace("mut ", "") and "EGraph" not in body.local_ty(pl["l"]):
+            hits.append(a)
+    if len(hits) == 1:
+        return hits[0]
+    return call.args[default] if default < len(call.args) else call.args[-1]
+
+
 def node_matcher(crate):
     """(body, hosted): the function that matches one e-node against the pattern node — `ematch_node`, or, when that
     helper was folded into its only caller, the recursive matcher itself (hosted=True: what were parameters of the
@@ -69,11 +82,11 @@ def m1(ctx):
                     for c in cl.calls:
                         if c.callee and c.callee.name == "ematch_impl":
                             n_imp += 1
-                            r = strip_role(cl.role_of_operand(c.args[2]))
+                            r = strip_role(cl.role_of_operand(arg_by_type(cl, c, "types::AppliedId", 2)))
                             elem = [cl.var_names.get(l) for l in range(2, cl.argc + 1)]
                             ok = r[0] == "call" and "identity" in r[1] and any(role_mentions_param(r, e) for e in elem if e)
                             ctx.check(ok, "root-is-identity-invocation", "each class is matched through its identity invocation", "ematch_all matches class i through %s" % role_str(r), where_of(cl, c.bb))
-                            r1 = strip_role(cl.role_of_operand(c.args[1]))
+                            r1 = strip_role(cl.role_of_operand(arg_by_type(cl, c, "::State", 1)))
                             ctx.check(r1[0] == "call" and r1[1] == "default", "root-state-empty", "matching of a class starts from the empty state", "matching starts from state %s" % role_str(r1), where_of(cl, c.bb))
             ctx.floor("ematch_impl calls in the class chain", n_imp, 1)
         return
@@ -92,10 +105,10 @@ def m1(ctx):
         C.check_only_allowed_skips(ctx, b, c.bb, [], "ematch_all", "accumulating the matches of a class")
     imp = [c for c in b.calls if c.callee and c.callee.name == "ematch_impl"]
     for c in imp:
-        r = strip_role(b.role_of_operand(c.args[2]))
+        r = strip_role(b.role_of_operand(arg_by_type(b, c, "types::AppliedId", 2)))
         ok = r[0] == "call" and "identity" in r[1] and role_mentions_call(r, "next")
         ctx.check(ok, "root-is-identity-invocation", "each class is matched through its identity invocation", "ematch_all matches class i through %s" % role_str(r), where_of(b, c.bb))
-        r1 = strip_role(b.role_of_operand(c.args[1]))
+        r1 = strip_role(b.role_of_operand(arg_by_type(b, c, "::State", 1)))
         ctx.check(r1[0] == "call" and r1[1] == "default", "root-state-empty", "matching of a class starts from the empty state", "matching starts from state %s" % role_str(r1), where_of(b, c.bb))
 
 
@@ -299,16 +312,36 @@ def m5(ctx):
     lp = [l for l in C.iterator_loops(b) if role_mentions_param(l[1], "substs")]
     ctx.check(len(lp) == 1 and C.loop_exhaustive(b, lp[0]), "all-substitutions-applied", "the applier visits every substitution the searcher found",
               "the applier of a pattern rule can stop before all substitutions were applied: represented instances do not fire", where_of(b))
+    for l in lp:
+        bad = sorted({x[1] for x in role_walk(l[1]) if isinstance(x, tuple) and x[0] == "call" and x[1] in BAD_ADAPTORS})
+        ctx.check(not bad, "substitutions-unfiltered", "the applier loop ranges over the substitutions with no dropping adaptor",
+                  "the applier iterates the substitutions through %s: matches the searcher found are never applied" % bad, where_of(b, l[0]))
     un = [c for c in b.calls if c.callee and c.callee.name == "union_instantiations"]
     ctx.floor("union_instantiations calls in the applier", len(un), 1)
+    def stored(r):
+        """a pattern the applier was given: a parameter, or a field of its receiver (the rule's data bundled in a struct)"""
+        r = strip_role(r)
+        while isinstance(r, tuple) and r[0] == "call" and r[1] in ("clone", "deref", "as_ref", "borrow") and r[3]:
+            r = strip_role(r[3][0])
+        if isinstance(r, tuple) and r[0] == "param":
+            return ("param", r[1])
+        if isinstance(r, tuple) and r[0] == "field" and strip_role(r[1])[0] == "param":
+            return ("field", strip_role(r[1])[1], r[2])
+        if isinstance(r, tuple) and r[0] == "upvar":
+            return ("upvar", r[1])
+        return None
+
+    sides = None
     for c in un:
-        C.check_only_allowed_skips(ctx, b, c.bb, [("true", lambda t, cond: t.startswith("call(cond"))], "applier", "uniting the two sides of a match")
+        # the only admissible skip: the rule's own condition — an indirect call (a closure the rule carries) on the substitution
+        C.check_only_allowed_skips(ctx, b, c.bb, [("true", lambda t, cond: t.startswith("call(") and "subst" in t)], "applier", "uniting the two sides of a match")
         a = [strip_role(b.role_of_operand(x)) for x in c.args]
-        lhs_ok = a[1] == ("param", "a") or (role_mentions_param(a[1], "a") and not role_mentions_param(a[1], "b"))
-        rhs_ok = a[2] == ("param", "b") or (role_mentions_param(a[2], "b") and not role_mentions_param(a[2], "a"))
-        ok = lhs_ok and rhs_ok and role_mentions_param(a[3], "substs")
-        ctx.check(ok, "applier-unites-lhs-rhs", "the applier unites pattern a with pattern b under the matched substitution",
+        l_, r_ = stored(a[1]), stored(a[2])
+        ok = l_ is not None and r_ is not None and l_ != r_ and role_mentions_param(a[3], "substs")
+        ctx.check(ok, "applier-unites-lhs-rhs", "the applier unites the rule's two stored patterns under the matched substitution",
                   "the applier calls union_instantiations(%s, %s, %s)" % (role_str(a[1]), role_str(a[2]), role_str(a[3])[:60]), where_of(b, c.bb))
+        if ok:
+            sides = (l_, r_)
     # Rewrite::new_if wires ematch_all(lhs) to the searcher and this applier with the same lhs
     ni = [x for x in crate.by_name.get("new_if", []) if x.kind != "Closure"]
     if ni:
@@ -319,7 +352,20 @@ def m5(ctx):
         ok = len(srch) == 1 and (len(appl) == 1 or inline_applier)
         if ok:
             sp = strip_role(srch[0].body.role_of_operand(srch[0].args[1]))
-            ap = strip_role(appl[0].body.role_of_operand(appl[0].args[2])) if appl else strip_role(b.role_of_operand(un[0].args[1]))
+            if appl and sides and sides[0][0] == "param":
+                ap = strip_role(appl[0].body.role_of_operand(appl[0].args[(b.param_index(sides[0][1]) or 3) - 1]))
+            elif appl and sides and sides[0][0] == "field":
+                # the applier is a method of a struct built in new_if: the left pattern is what the constructor puts into that field
+                ap = None
+                for sub in n.all_bodies():
+                    for bi, si, st_ in sub.statements():
+                        rv = st_["rv"] if st_["k"] == "assign" else None
+                        if rv and rv["k"] == "agg" and rv.get("agg") == "adt" and sides[0][2] in rv.get("fields", []):
+                            ap = strip_role(sub.role_of_operand(rv["ops"][rv["fields"].index(sides[0][2])]))
+                if ap is None:
+                    ap = ("other", "no constructor of the applier's receiver in new_if")
+            else:
+                ap = strip_role(appl[0].body.role_of_operand(appl[0].args[2])) if appl else strip_role(b.role_of_operand(un[0].args[1]))
             # both derive from the parsed left pattern `a` (the applier gets a clone)
             ok = role_mentions_call(sp, "parse") and role_mentions_call(ap, "parse") and role_str(sp).count("param") == role_str(ap).count("param")
         ctx.check(ok, "searcher-and-applier-share-lhs", "the searcher matches the same left pattern the applier instantiates", "Rewrite::new_if wires different left patterns into searcher and applier", where_of(n))
